@@ -170,7 +170,9 @@ type vfC01TCert struct {
 func (c vfC01TCert) genuine() bool {
 	return c.Key == "kM" && c.Chain == 1 && len(c.Exts) == 1 && c.Exts[0] == vfC01TExt{"M", "M", "kM"}
 }
-func (c vfC01TCert) String() string { return fmt.Sprintf("%+v", struct{ vfC01TCert }{c}) }
+func (c vfC01TCert) String() string {
+	return fmt.Sprintf("{certificate key %s, chain of %d, extensions (identity key, signed by, signed over) %v}", c.Key, c.Chain, c.Exts)
+}
 
 type vfC01TWorld struct {
 	m, v, h      vfC01TKey
